@@ -73,4 +73,18 @@ CLAIMS = {
                 "byte-level target for the string scanner listed in DESIGN was not built.",
         "technique": "property-based round-trip testing (Hypothesis) of literal denotation and json decode",
     },
+    "C03": {
+        "level": "Differential testing of the hand-written sync/async twins: ~9k (quick) / ~225k (thorough) grammar "
+                 "programs (partials in sub-directories, macros, tablerow, lambdas) x data wrapped in pure "
+                 "__getitem_async__ drops x 8 loader kinds: render vs render_async, get_template vs "
+                 "get_template_async, analyze vs analyze_async must agree on output or (error class, template name, "
+                 "token start). ~3k (quick) schedule cases: 2-3 render_async coroutines sharing environment, loader "
+                 "and optionally the Template, stepped by a deterministic scheduler - all interleavings when the total "
+                 "number of steps is <= 9 (up to 130), the drawn schedule otherwise; each outcome must equal the "
+                 "coroutine's outcome when run alone. Exploration; exhaustive only per small schedule case.",
+        "design_ref": "DESIGN.md §3 C03",
+        "note": "Interleavings only at the harness' await points (drops); run_in_executor threads of file system "
+                "loaders are not controlled. Error messages are not compared.",
+        "technique": "differential property-based testing + enumerated coroutine interleavings (Hypothesis)",
+    },
 }
